@@ -13,7 +13,7 @@ Next ==
     \/ \E o \in Obj : New(o) \/ ResetBounds(o) \/ Drop(o)
     \/ \E o \in Obj, a \in Annot : AddAnnotator(o, a)
     \/ \E o \in Obj, a \in Annot, sg \in Segs, l \in Labels : Add(o, a, sg[1], sg[2], l)
-    \/ \E o \in Obj, a \in Annot, sg \in Segs, l \in Labels : sg[1] < sg[2] /\ Remove(o, a, sg[1], sg[2], l)
+    \/ \E o \in Obj, a \in Annot, sg \in {x \in Segs : x[1] < x[2]}, l \in Labels : Remove(o, a, sg[1], sg[2], l)
     \/ \E o, o2 \in Obj : Copy(o, o2) \/ CopyFlush(o, o2) \/ MergeInPlace(o, o2)
     \/ \E o, o2, o3 \in Obj : MergeNew("merge_new", o, o2, o3) \/ MergeNew("plus", o, o2, o3)
 
